@@ -154,10 +154,30 @@ def rule_r4(chk, db):
             continue
         root = flow.resolve_place(g, prev[0])
         l = root[0] if root else flow.op_place(prev[0])["l"]
+        # the carried bytes may live in a field of the reader's state and be moved out for the call (`mem::take(&mut self.prev_bytes)`):
+        # then that field is the carried variable
+        field = None
+        tk = flow.single_def(g, l)
+        if tk is not None and tk["kind"] == "call" and callee_def(tk["term"]) in ("core::mem::take", "core::mem::replace") and tk["term"]["args"]:
+            src = flow.resolve_place(g, tk["term"]["args"][0])
+            if src is not None and flow.fields_only(src[1]):
+                l, field = src[0], flow.fields_only(src[1])
         # every definition of the carried variable inside the read loop comes from the result of a read
         bad = []
         n_in_loop = 0
-        for df in g.defs().get(l, []):
+        if field is None:
+            defs_ = [df for df in g.defs().get(l, [])]
+        else:
+            defs_ = []
+            for b2, s2, st2 in g.stmts():
+                rp = flow.resolve_place(g, {"p": st2["dst"]}) if st2["dst"]["proj"] else None
+                if rp is not None and rp[0] == l and flow.fields_only(rp[1]) == field:
+                    defs_.append({"kind": "assign", "rv": st2["rv"], "bi": b2})
+            for b2, t2 in g.calls():
+                rp = flow.resolve_place(g, {"p": t2["dst"]}) if t2["dst"]["proj"] else None
+                if rp is not None and rp[0] == l and flow.fields_only(rp[1]) == field:
+                    defs_.append({"kind": "call", "term": t2, "bi": b2})
+        for df in defs_:
             if df["kind"] == "mutarg" or df["bi"] not in loops:
                 continue
             n_in_loop += 1
